@@ -127,6 +127,11 @@ OPS = {
                                          M("eam", lambda s: s.append(["Table-Form:a", [["x", "0.0 1.0 2.0 3.0 4.0"], ["y", "0.0 1.0 4.0 9.0 16.0"]]]))],
     "form-label-reserved": [M("pair", lambda s: sec(s, "Potential-Form")[1].append(["pi(r)", "r"])), M("pair", lambda s: sec(s, "Potential-Form")[1].append(["r(x)", "x"])),
                             M("eam", lambda s: sec(s, "Potential-Form")[1].append(["epsilon(r, s)", "s*r"])), M("pair", lambda s: sec(s, "Potential-Form")[1].append(["inf(r)", "r"]))],
+    # the expression library's names are case-insensitive: of two forms whose labels differ only in case a formula can call but one
+    "form-labels-differ-in-case": [M("pair", lambda s: sec(s, "Potential-Form")[1].append(["F(r,a)", "a*10"])),
+                                   M("eam", lambda s: s.append(["Table-Form:TF", [["x", "0.0 1.0 2.0 3.0 4.0"], ["y", "9.0 9.0 9.0 9.0 9.0"]]])),
+                                   M("pair", lambda s: s.append(["Table-Form:G", [["x", "0.0 1.0 2.0 3.0 4.0"], ["y", "9.0 9.0 9.0 9.0 9.0"]]])),
+                                   M("pair", lambda s: s.append(["Table-Form:AS.CONSTANT", [["x", "0.0 1.0 2.0 3.0 4.0"], ["y", "9.0 9.0 9.0 9.0 9.0"]]]))],
     "form-signature-trailing-text": [M("pair", lambda s: rename(s, "Potential-Form", "f(r,a)", "f(r,a)x")), M("eam", lambda s: rename(s, "Potential-Form", "f(r,a)", "f(r,a) + 1"))],
     "not-ini": [M("pair", raw(lambda t: "hello world\nthis is not a potable file\n")), M("eam", raw(lambda t: "<xml><potential/></xml>\n"))],
     "text-before-header": [M("pair", raw(lambda t: "target : LAMMPS\n" + t))],
